@@ -260,6 +260,8 @@ class MConc:
         ids = sorted(ids)
         if canonical:
             base = ["a", "b", "c", "d", "e", "f", "g", "h"][:len(ids)] if len(ids) <= 8 else ["i%d" % i for i in ids]
+        elif len(ids) <= 3 and rng.random() < 0.15:
+            base = rng.sample(rng.choice([["lib", "Lib", "LIB"], ["é", "É", "e"], ["x-y", "X-Y", "x-Y"]]), len(ids))   # differ in case only
         elif len(ids) <= len(pool):
             base = rng.sample(pool, len(ids))
         else:
@@ -674,7 +676,10 @@ def rand_value(rng, fam, nids, kmax, allow_empty=True):
     r = rng.random()
     if allow_empty and r < 0.08:
         return dict(EMPTY)
-    k = 1 if rng.random() < (0.08 if fam == "cs" else 0.2) else rng.randint(2, max(2, kmax))
+    # ', '-lists of a history always have >= 2 items: their items may contain blanks, and for two
+    # one-item values the code cannot see the delimiter (documented limit of its heuristic; that pair
+    # is covered, with blank-free items, by the replayed TLC cases)
+    k = 1 if fam != "cs" and rng.random() < 0.2 else rng.randint(2, max(2, kmax))
     k = min(k, nids)
     it = rng.sample(range(1, nids + 1), k)
     if fam == "ml":
@@ -872,7 +877,8 @@ def getenv(obj):
 def new_buildinfo(text, how="assign"):
     """a live BuildInfo whose Environment field is `text` (None: no such field)"""
     from debian.deb822 import BuildInfo
-    if how == "parse" and text is not None:
+    # (the Deb822 line regex backtracks quadratically on long runs of white space: short texts only)
+    if how == "parse" and text is not None and len(text) < 3000:
         try:
             b = BuildInfo("Format: 1.0\nSource: x\nEnvironment:%s\nBuild-Origin: Debian\n" % text)
             if b.get("Environment") == text and list(b.keys()) == ["Format", "Source", "Environment", "Build-Origin"]:
@@ -1011,7 +1017,7 @@ def replay_env_cases(ctx, raw, hits, quick):
         rounds = ["canonical", "random"]
         has = set(case["inp"])
         bigcands = [c for c in (65, 47, 32) if c in has]
-        if bigcands and hc.randrange(25 if quick else 12) == 0:
+        if bigcands and (hc.randrange(25 if quick else 12) == 0 or (case["exp"]["k"] == "ok" and case["exp"]["out"] and hc.randrange(3) == 0)):
             rounds.append("big")
         for r in rounds:
             if r == "canonical":
@@ -1411,11 +1417,22 @@ def run(ctx):
         "the item ORDER of a single-line merge is not part of the statement (the code sorts); recorded as implementation layer only",
         "trusted: TLC, the concretizer and the projection (a projected value is re-concretized and must reproduce the observed string exactly)",
     ]
+    import time
+    if os.environ.get("X03_DEBUG"):
+        import faulthandler
+        import signal
+        faulthandler.register(signal.SIGUSR1, all_threads=True)
+    t0 = time.time()
     res = model_checking(ctx, quick)
+    timing = {"model_checking": round(time.time() - t0, 1)}
+    ctx.extra["timing_s"] = timing
     ctx.extra["model_constants"] = {"MergeFields": "MC_MergeFields%s.cfg" % ("_quick" if quick else ""),
                                     "BuildInfoEnv": "MC_BuildInfoEnv%s.cfg" % ("_quick" if quick else "")}
     # ---- spec -> code
+    t0 = time.time()
     nm, mk = replay_merge_cases(ctx, res["merge"].raw_path, hits, quick)
+    timing["replay_merge"] = round(time.time() - t0, 1)
+    t0 = time.time()
     if not ctx.violations and nm != res["merge"].distinct:
         raise core.MachineryError("TLC found %d merge states but %d CASE lines were read" % (res["merge"].distinct, nm))
     ne, ek, nbig = (0, {}, 0)
@@ -1423,6 +1440,8 @@ def run(ctx):
         ne, ek, nbig = replay_env_cases(ctx, res["env"].raw_path, hits, quick)
         if not ctx.violations and ne != res["env"].distinct:
             raise core.MachineryError("TLC found %d Environment states but %d CASE lines were read" % (res["env"].distinct, ne))
+    timing["replay_env"] = round(time.time() - t0, 1)
+    t0 = time.time()
     for k in ("merge", "env"):
         shutil.rmtree(os.path.dirname(res[k].raw_path), ignore_errors=True)
     ctx.traces += nm + ne
@@ -1431,6 +1450,7 @@ def run(ctx):
     # ---- code -> spec
     if len(ctx.violations) < 5:
         recorded_executions(ctx, quick, hits)
+    timing["recorded_executions"] = round(time.time() - t0, 1)
     ctx.extra["known_findings"] = {k["id"]: {"occurrences": hits.n.get(k["id"], 0), "example": (hits.example.get(k["id"]) or (0, None))[1]} for k in KNOWN}
     for k in KNOWN:
         if hits.n.get(k["id"]):
